@@ -32,6 +32,18 @@ def seed():
         return 1
 
 
+def sweep_stale():
+    """Remove scratch directories left on the tmpfs by runs whose process is gone (a killed run cannot clean up)."""
+    try:
+        for d in os.listdir(SHM):
+            m = re.match(r'rqverif\.(?:tlc\.[^.]*\.|ws\.|strace\.)?(\d+)(?:\.|$)', d)
+            if m and not os.path.exists('/proc/%s' % m.group(1)):
+                p = os.path.join(SHM, d)
+                shutil.rmtree(p, ignore_errors=True) if os.path.isdir(p) else os.unlink(p)
+    except OSError:
+        pass
+
+
 def scratch(tag):
     """Fresh scratch directory (tmpfs when available); caller removes it."""
     d = os.path.join(SHM, 'rqverif.%d.%s' % (os.getpid(), tag))
@@ -49,6 +61,7 @@ def _locked(name):
 
 def build():
     """(Re)build /repo's binary with the hooks on and the harness against /repo's working tree."""
+    sweep_stale()
     lock = _locked('.build.lock')
     try:
         if ALT:
